@@ -58,13 +58,37 @@ def sym_str(x=""):
     return builtins.str(x)
 
 
+class _TypeProxy:
+    """stands in for the builtin type names `str` / `int` inside patched modules: callable like the
+    type, `isinstance(x, str)` is normalised by sym_isinstance, and unbound-method access such as
+    `str.strip` yields a function that dispatches on the receiver (so it also works on symbolic values)"""
+
+    def __init__(self, real, conv):
+        self._real, self._conv = real, conv
+
+    def __call__(self, *a, **k):
+        return self._conv(*a, **k)
+
+    def __getattr__(self, name):
+        if name.startswith("__"):
+            return getattr(self._real, name)
+        real_attr = getattr(self._real, name)
+        if not callable(real_attr):
+            return real_attr
+
+        def unbound(recv, *a, **k):
+            return getattr(recv, name)(*a, **k)
+
+        return unbound
+
+
 def _norm_types(t):
     """inside patched modules the names `str`/`int` are bound to our wrappers: map them back"""
     if isinstance(t, tuple):
         return tuple(_norm_types(c) for c in t)
-    if t is sym_str:
+    if t is sym_str or t is STR_PROXY:
         return str
-    if t is sym_int:
+    if t is sym_int or t is INT_PROXY:
         return int
     return t
 
@@ -127,7 +151,9 @@ def sym_range(*a):
     return builtins.range(*[builtins.int(x) if isinstance(x, (SymInt, _cv().CV)) else x for x in a])
 
 
-BUILTINS = {"len": sym_len, "int": sym_int, "str": sym_str, "isinstance": sym_isinstance, "range": sym_range}
+STR_PROXY = _TypeProxy(str, sym_str)
+INT_PROXY = _TypeProxy(int, sym_int)
+BUILTINS = {"len": sym_len, "int": INT_PROXY, "str": STR_PROXY, "isinstance": sym_isinstance, "range": sym_range}
 
 
 @contextlib.contextmanager
